@@ -8,7 +8,7 @@ import itertools
 import json
 
 from .. import sc as M
-from ..core import TRUSTED_COMMON, build_and_audit, finish
+from ..core import TRUSTED_COMMON, build_and_audit, finish, idkey
 from ..sm import run_sm, targeted_search
 
 FIELDS = ["out", "nodes", "edges", "mem", "memb", "nattr", "eattr", "nattrK", "eattrK", "net", "uid", "frozen", "res"]
@@ -20,7 +20,12 @@ RMN = ("remove_simplex_ids_from", "remove_edges_from")
 
 
 def k(x):
-    return json.dumps(x, sort_keys=True)
+    """hashable key of a JSON-encoded id (int | str | None | list for a tuple id)"""
+    return tuple(x) if isinstance(x, list) else x
+
+
+def srt(xs):
+    return sorted(xs, key=idkey)
 
 
 def fs(ms):
@@ -40,9 +45,9 @@ def pred(snap, op, prev, exc):
     memb = {k(n): (fs(es) if isinstance(es, list) else None) for n, es in snap["memb"]}
     nodeset = {k(n) for n in nodes}
     # ---- exactly one attribute record per id (first: the common symptom of a write that raised half-way)
-    if any(a == "$missing" for _, a in snap["eattr"]) or sorted(map(k, snap["eattrK"])) != sorted(map(k, edges)):
+    if any(a == "$missing" for _, a in snap["eattr"]) or srt(map(k, snap["eattrK"])) != srt(map(k, edges)):
         fails.append(("edge-attr-record", f"edge attribute records {snap['eattrK']} vs simplices {edges}"))
-    if any(a == "$missing" for _, a in snap["nattr"]) or sorted(map(k, snap["nattrK"])) != sorted(map(k, nodes)):
+    if any(a == "$missing" for _, a in snap["nattr"]) or srt(map(k, snap["nattrK"])) != srt(map(k, nodes)):
         fails.append(("node-attr-record", f"node attribute records {snap['nattrK']} vs nodes {nodes}"))
     # ---- no simplex is empty
     for e, ms in snap["mem"]:
@@ -75,7 +80,7 @@ def pred(snap, op, prev, exc):
         seen = {}
         for e, m in mem.items():
             if m in seen:
-                fails.append(("duplicate-members", f"simplices {seen[m]} and {e} have the same members {sorted(m)}"))
+                fails.append(("duplicate-members", f"simplices {seen[m]} and {e} have the same members {srt(m)}"))
                 break
             seen[m] = e
     # ---- downward closure (brute force)
@@ -83,7 +88,7 @@ def pred(snap, op, prev, exc):
     for e, m in mem.items():
         if m is None or done:
             continue
-        ml = sorted(m)
+        ml = srt(m)
         for r in range(2, len(ml)):
             for c in itertools.combinations(ml, r):
                 if frozenset(c) not in setset:
@@ -99,7 +104,7 @@ def pred(snap, op, prev, exc):
         else:
             has = {fs(h) for h in snap["has"]}
             if has != setset:
-                d = sorted(map(sorted, has ^ setset))[:2]
+                d = [srt(x) for x in list(has ^ setset)[:2]]
                 fails.append(("has-simplex-wrong", f"has_simplex disagrees with the member sets on {d}"))
     if name == "has_simplex" and exc is None:
         want = fs(op["members"]) in setset
@@ -122,8 +127,8 @@ def pred(snap, op, prev, exc):
             t = cur[ki]
             cur = {f: m for f, m in cur.items() if not t <= m}
         if cur != mem or raised != (exc is not None):
-            fails.append(("removal-inexact", f"after removing {ids}: expected simplices {sorted(cur)} raise={raised}, "
-                                             f"got {sorted(mem)} raise={exc is not None}"))
+            fails.append(("removal-inexact", f"after removing {ids}: expected simplices {srt(cur)} raise={raised}, "
+                                             f"got {srt(mem)} raise={exc is not None}"))
     # ---- removing a node is strong: exactly the simplices containing it go
     if name in ("remove_node", "remove_nodes_from") and all(v is not None for v in pm.values()):
         ns = [op["n"]] if name == "remove_node" else op["ns"]
@@ -139,22 +144,22 @@ def pred(snap, op, prev, exc):
             curn = [x for x in curn if x != kn]
             cur = {f: m for f, m in cur.items() if kn not in m}
         if cur != mem or curn != [k(n) for n in nodes] or raised != (exc is not None):
-            fails.append(("node-removal-inexact", f"after removing nodes {ns}: expected simplices {sorted(cur)} nodes {curn}, "
-                                                  f"got {sorted(mem)} nodes {[k(n) for n in nodes]}"))
+            fails.append(("node-removal-inexact", f"after removing nodes {ns}: expected simplices {srt(cur)} nodes {curn}, "
+                                                  f"got {srt(mem)} nodes {[k(n) for n in nodes]}"))
     # ---- additions
     if name in ADD1 + ADDN + ("close",):
         # an addition never removes or changes an existing simplex
         for f, m in pm.items():
             if mem.get(f, "absent") != m:
-                fails.append(("existing-simplex-changed", f"simplex {f} was {sorted(m) if m is not None else m}, now "
-                                                          f"{sorted(mem[f]) if mem.get(f) else mem.get(f, 'absent')}"))
+                fails.append(("existing-simplex-changed", f"simplex {f} was {srt(m) if m is not None else m}, now "
+                                                          f"{srt(mem[f]) if mem.get(f) else mem.get(f, 'absent')}"))
                 break
         psets = set(pm.values())
         # simplices added under a maximum order never exceed it
         if name in ADDN and op.get("max_order") is not None:
             for f, m in mem.items():
                 if m is not None and pm.get(f, "absent") != m and len(m) > op["max_order"] + 1:
-                    fails.append(("max-order-exceeded", f"max_order={op['max_order']} but new simplex {f} = {sorted(m)}"))
+                    fails.append(("max-order-exceeded", f"max_order={op['max_order']} but new simplex {f} = {srt(m)}"))
                     break
         if exc is None:
             if name in ADD1:
@@ -178,10 +183,10 @@ def pred(snap, op, prev, exc):
                     if explicit:
                         used.add(k(it["idx"]))
                     if kmax is not None and len(ms) > kmax + 1:
-                        want = [frozenset(c) for r in range(2, kmax + 2) for c in itertools.combinations(sorted(fs(ms)), r)]
+                        want = [frozenset(c) for r in range(2, kmax + 2) for c in itertools.combinations(srt(fs(ms)), r)]
                     else:
                         want = [fs(ms)]
-                    miss = [sorted(w) for w in want if w not in setset]
+                    miss = [srt(w) for w in want if w not in setset]
                     if miss:
                         fails.append(("added-simplex-missing", f"{name} returned but {miss[0]} (from {ms}) is not a simplex"))
                         break
@@ -192,26 +197,78 @@ def derive(snap):
     return snap
 
 
-def run(ctx):
-    ok = build_and_audit(ctx, "XgiModel.Props.C03", ["XgiModel.C03.Drive"])
-    ctx.rule = ("histories of 1-30 public calls on xgi.SimplicialComplex from one PRNG: add_simplex (explicit ids incl. 0 / "
-                "automatic), add_simplices_from in the five formats with max_order in {None,0..4}, weighted additions, simplices "
-                "of 1-6 nodes over universes of 4-7 labels (already-present, sub-face, overlapping, repeated-node, empty and "
-                "None-containing member lists), remove_simplex_id(s_from) incl. ids that disappear mid-loop, remove_node(s), "
-                "close, cleanup, the deprecated aliases, has_simplex queries; non-trivial = distinct full snapshot with a "
-                "simplex of >=3 nodes after >=2 op kinds")
-    dis, hist = run_sm(ctx, M, "SC", FIELDS, pred, ctx.n(260, 9000), derive=derive,
-                       corr_name="correspondence SC~SimplicialComplex (full snapshot)")
+def small_scope():
+    """all call sequences of length <= 3 over an 18-call alphabet on the node universe {1,2,3}"""
+    A = lambda ms, idx="$auto": {"op": "add_simplex", "members": ms, "idx": idx, "attr": []}
+    alpha = [A(list(c)) for r in (1, 2, 3) for c in itertools.combinations([1, 2, 3], r)]
+    alpha += [A([1, 2, 3], 0), A([1, 2], 0)]
+    alpha += [{"op": "add_simplices_from", "fmt": 1, "items": [{"members": [1, 2, 3]}], "max_order": 1, "attr": []},
+              {"op": "add_simplices_from", "fmt": 2, "items": [{"members": [1, 2, 3], "idx": 5}, {"members": [2, 3], "idx": 0}],
+               "max_order": None, "attr": []}]
+    alpha += [{"op": "remove_simplex_id", "e": e} for e in (0, 1, 2, 3)]
+    alpha += [{"op": "remove_simplex_ids_from", "es": [1, 0]}, {"op": "remove_node", "n": 1}, {"op": "remove_node", "n": 2}]
+    out = []
+    for n in (1, 2, 3):
+        for seq in itertools.product(alpha, repeat=n):
+            out.append([json.loads(json.dumps(o)) for o in seq])
+    return out, len(alpha)
+
+
+def conclude(ctx, ok, dis, hist):
     if (dis or not ok) and not ctx.violations:
         targeted_search(ctx, M, pred, dis, hist, n=ctx.n(1200, 15000), derive=derive)
         if not ctx.violations:
             ctx.violation("model-tie", "unproven", {"broken": ctx.broken, "example": ctx.extra.get("disagreements", [])[:1]},
                           detail="; ".join(ctx.broken)[:500], kind="unproven", broken=ctx.broken)
-    ctx.assumptions = ["IDs restricted to int/str/None; bool/float/tuple node IDs and unhashable members outside the model",
-                       "set iteration order reaches the model only as order hints (creation order of faces and nodes, "
-                       "list(frozenset) for close) recorded on the implementation; the hints reorder, they never decide "
-                       "which simplices exist, and the theorems hold for all hints",
-                       "weighted additions: every tuple carries a weight (no empty tuples)"]
-    return finish(ctx, trusted_base=TRUSTED_COMMON + [
-        "harness/sc.py hint recording (new edges / new nodes in dict order after the call)",
-        "itertools.combinations / utilities.powerset modelled as `combs` (same order); frozenset equality as mutual inclusion"])
+
+
+RULE = ("histories of 1-22 public calls on xgi.SimplicialComplex from one PRNG: add_simplex (explicit ids incl. 0 / "
+        "automatic), add_simplices_from in the five formats with max_order in {None,0..4}, weighted additions, simplices "
+        "of 1-6 nodes over universes of 4-7 labels (already-present, sub-face, overlapping, repeated-node, empty and "
+        "None-containing member lists), remove_simplex_id(s_from) incl. ids that disappear mid-loop, remove_node(s), "
+        "close, cleanup, the deprecated aliases, has_simplex queries; corpus/C03 replays first; non-trivial = distinct "
+        "full snapshot with a simplex of >=3 nodes after >=2 op kinds")
+ASSUMPTIONS = ["IDs restricted to int/str/None; bool/float/tuple node IDs and unhashable members outside the model",
+               "set iteration order reaches the model only as order hints (creation order of faces and nodes, "
+               "list(frozenset) for close) recorded on the implementation; the hints reorder, they never decide "
+               "which simplices exist, and the theorems hold for all hints",
+               "weighted additions: every tuple carries a weight (no empty tuples)"]
+TRUSTED = TRUSTED_COMMON + [
+    "harness/sc.py hint recording (new edges / new nodes in dict order after the call)",
+    "itertools.combinations / utilities.powerset modelled as `combs` (same order); frozenset equality as mutual inclusion"]
+
+
+def run(ctx):
+    ok = build_and_audit(ctx, "XgiModel.Props.C03", ["XgiModel.C03.Drive"])
+    ctx.rule = RULE
+    extra = []
+    if not ctx.quick:
+        extra, na = small_scope()
+        ctx.exhaustive = True
+        ctx.extra["exhaustive_space"] = (f"correspondence (validation of the model, not the proof): all {len(extra)} call sequences "
+                                         f"of length <= 3 over a {na}-call alphabet on the node universe {{1,2,3}}")
+    dis, hist = run_sm(ctx, M, "SC", FIELDS, pred, ctx.n(170, 3000), hist_len=(1, 22), derive=derive,
+                       corr_name="correspondence SC~SimplicialComplex (full snapshot)", extra_histories=extra)
+    conclude(ctx, ok, dis, hist)
+    ctx.assumptions = ASSUMPTIONS
+    return finish(ctx, trusted_base=TRUSTED)
+
+
+def replay(ctx, path):
+    """./check C03 --replay <file>: re-run one stored case (replay file or corpus file) on the implementation and the model"""
+    j = json.load(open(path))
+    ops = j["case"]["ops"] if "case" in j else j["ops"]
+    ok = build_and_audit(ctx, "XgiModel.Props.C03", ["XgiModel.C03.Drive"])
+    ctx.rule = "replay of " + path
+    dis, hist = run_sm(ctx, _NoCorpus, "SC", FIELDS, pred, 0, derive=derive, extra_histories=[ops],
+                       corr_name="correspondence SC~SimplicialComplex (full snapshot)")
+    for d in ctx.extra.get("disagreements", []):
+        print("DISAGREEMENT", json.dumps(d)[:1500])
+    conclude(ctx, ok, dis, hist)
+    ctx.assumptions = ASSUMPTIONS
+    return finish(ctx, trusted_base=TRUSTED)
+
+
+import types as _types  # noqa: E402
+
+_NoCorpus = _types.SimpleNamespace(**{n: getattr(M, n) for n in dir(M) if not n.startswith("__")})
